@@ -1,6 +1,6 @@
 import Psa.AdmitProps
 import Psa.Namespace
-import Psa.EvalProofs
+import Psa.C02Bridge
 /-! # C01 — the pod admission verdict equals the namespace's enforce-policy verdict -/
 namespace PSA.Props
 open PSA
